@@ -235,6 +235,89 @@ def g3_uninvalidated(cls):
     return findings
 
 
+def g4_rebound_parameter_forwarded(fn):
+    """A parameter p is saved under another name and rebound (`p, max_p = 0, p`), i.e. from there on `p` is a working
+    variable and the caller's value lives in the other name.  Passing `p` on as the same-named option of a callee then
+    forwards the working variable (a running counter), not the caller's option."""
+    findings = []
+    params = {a.arg for a in fn.args.args + fn.args.kwonlyargs}
+    saved = {}      # param -> (name holding the original value, statement)
+    for s in own_nodes(fn):
+        if isinstance(s, ast.Assign) and len(s.targets) == 1 and isinstance(s.targets[0], ast.Tuple) and isinstance(s.value, ast.Tuple) \
+                and len(s.targets[0].elts) == len(s.value.elts):
+            tn = [t.id if isinstance(t, ast.Name) else None for t in s.targets[0].elts]
+            for i, v in enumerate(s.value.elts):
+                if isinstance(v, ast.Name) and v.id in params and v.id in tn and tn[i] is not None and tn[i] != v.id:
+                    j = tn.index(v.id)
+                    if not (isinstance(s.value.elts[j], ast.Name) and s.value.elts[j].id == v.id):
+                        saved[v.id] = (tn[i], s)
+    if not saved:
+        return findings
+    for c in own_nodes(fn):
+        if not isinstance(c, ast.Call):
+            continue
+        for kw in c.keywords:
+            if kw.arg in saved and isinstance(kw.value, ast.Name) and kw.value.id == kw.arg and c.lineno > saved[kw.arg][1].lineno:
+                findings.append(('G4', c, 'the option %s=%s is passed on after `%s` turned `%s` into a working variable; the caller\'s value is in `%s`'
+                                 % (kw.arg, kw.arg, src(saved[kw.arg][1]), kw.arg, saved[kw.arg][0])))
+    return findings
+
+
+def g5_configuration_inherited(cls):
+    """Inside a method of class K an object of the same class is built (K(...) or a static constructor K.f(...)).  Every
+    configuration parameter p of that constructor which has a non-None default and is stored as self.p by K.__init__ must
+    be passed explicitly: otherwise the derived object silently gets the default instead of this object's setting."""
+    findings = []
+    init = cls.methods.get('__init__')
+    if init is None:
+        return findings
+    stored = set()
+    iparams = [a.arg for a in init.node.args.args]
+    for s in own_nodes(init.node):
+        if isinstance(s, ast.Assign) and len(s.targets) == 1 and isinstance(s.targets[0], ast.Attribute) and isinstance(s.targets[0].value, ast.Name) \
+                and s.targets[0].value.id == 'self' and s.targets[0].attr in iparams and s.targets[0].attr in _names(s.value):
+            stored.add(s.targets[0].attr)
+    if not stored:
+        return findings
+
+    def config_params(fn, skip_first):
+        args = fn.args.args[1:] if skip_first else fn.args.args
+        defaults = fn.args.defaults
+        out = {}
+        for a, d in zip(args[len(args) - len(defaults):], defaults):
+            if a.arg in stored and not (isinstance(d, ast.Constant) and d.value is None):
+                out[a.arg] = d
+        return out
+    for mname, m in cls.methods.items():
+        if mname == '__init__':
+            continue
+        for c in own_nodes(m.node):
+            if not isinstance(c, ast.Call):
+                continue
+            callee = None
+            if isinstance(c.func, ast.Name) and c.func.id == cls.name:
+                callee, skip = init.node, True
+            elif isinstance(c.func, ast.Attribute) and isinstance(c.func.value, ast.Name) and c.func.value.id == cls.name and c.func.attr in cls.methods:
+                cm = cls.methods[c.func.attr].node
+                is_static = any(src(d) in ('staticmethod', 'classmethod') for d in cm.decorator_list)
+                callee, skip = cm, (not is_static) or any(src(d) == 'classmethod' for d in cm.decorator_list)
+            if callee is None or any(kw.arg is None for kw in c.keywords):
+                continue
+            need = config_params(callee, skip)
+            if not need:
+                continue
+            names = [a.arg for a in (callee.args.args[1:] if skip else callee.args.args)]
+            passed = {kw.arg for kw in c.keywords} | set(names[:len(c.args)])
+            uses_self = any(isinstance(n, ast.Name) and n.id == 'self' for n in ast.walk(m.node))
+            if not uses_self:
+                continue        # a static helper has no setting to inherit
+            for p, d in sorted(need.items()):
+                if p not in passed:
+                    findings.append(('G5', c, '%s(...) is built inside %s.%s without %s=...: the new object gets the default %s=%s instead of '
+                                              'inheriting self.%s' % (src(c.func), cls.name, mname, p, p, src(d), p)))
+    return findings
+
+
 def run(ctx, rule):
     """Apply the detectors to every function (and class) in the property's scope (reference/scope.json)."""
     import fnmatch
@@ -253,14 +336,16 @@ def run(ctx, rule):
         sites += len(memo_sites(f.node))
         if f.cls is not None:
             classes.add(f.cls.qual)
-        for det in (g1_stale_after_miss, g2_underkeyed):
+        for det in (g1_stale_after_miss, g2_underkeyed, g4_rebound_parameter_forwarded):
             for kind, node, msg in det(f.node):
-                ctx.violated(rule, f.qual, '%s memo discipline: %s' % (kind, src(node)[:80]), node, msg)
+                ctx.violated(rule, f.qual, '%s %s: %s' % (kind, 'option forwarding' if kind == 'G4' else 'memo discipline', src(node)[:80]), node, msg)
     for cq in sorted(classes):
         c = ctx.prog.classes.get(cq)
         if c is None:
             continue
         for kind, node, msg in g3_uninvalidated(c):
             ctx.violated(rule, cq, '%s memo discipline: %s' % (kind, src(node)[:80]), node, msg)
+        for kind, node, msg in g5_configuration_inherited(c):
+            ctx.violated(rule, cq, '%s configuration inherited: %s' % (kind, src(node)[:80]), node, msg)
     ctx.met(rule, ctx.prop + ' scope', 'memo discipline: %d functions, %d memo sites, %d classes examined' % (n, sites, len(classes)), None,
             'no stale-after-miss use, no under-keyed memo, no persistent memo that a state writer forgets to reset', where='-', nontrivial=sites > 0)
